@@ -61,6 +61,21 @@ Theorem unknown_keys_pass_through : forall nb fl d u k key v other,
 Proof. exact unknown_passes_lemma. Qed.
 Print Assumptions unknown_keys_pass_through.
 
+(* set_user_pf_options history: what is stored = the latest binding of each key since the latest reset ... *)
+Theorem stored_options_follow_history : forall (ops : list (bool * opts)) key,
+  Forall (fun op => nodup_keys (snd op) = true) ops ->
+  get key (set_user_seq ops []) = latest key (rev ops).
+Proof. exact stored_options_lemma. Qed.
+Print Assumptions stored_options_follow_history.
+
+(* ... and the value in force after any history of set_user_pf_options calls and a pipeflow call *)
+Theorem precedence_after_history : forall nb fl d (ops : list (bool * opts)) k key,
+  Forall (fun op => nodup_keys (snd op) = true) ops -> nodup_keys k = true -> is_coupled key = false ->
+  get key (resolve nb fl d (set_user_seq ops []) k)
+  = first_some (get key k) (first_some (latest key (rev ops)) (get key d)).
+Proof. exact precedence_after_history_lemma. Qed.
+Print Assumptions precedence_after_history.
+
 (* the documented default of every documented option is the default in force (generated tables) *)
 Theorem defaults_match_documentation : doc_mismatches code_defaults doc_defaults = [].
 Proof. vm_compute. reflexivity. Qed.
